@@ -106,6 +106,9 @@ type Script struct {
 	Sess string `json:"sess,omitempty"`
 	// Dyn2: a dynamic stream picks its second run-time output schema.
 	Dyn2 bool `json:"d2,omitempty"`
+	// NoHook: the stream state does not implement StreamCanceller (a cancel
+	// must still end the stream with no further turn).
+	NoHook bool `json:"nh,omitempty"`
 	// Tail: what a producer does after Turns are exhausted is always finish;
 	// what an exchange does after Turns are exhausted is emit.
 }
@@ -219,6 +222,7 @@ type GenOpts struct {
 	MaxRows    int
 	NoBadTurns bool // only emit/finish turns
 	Pad        int
+	NoHook     bool // some states come without a cancel hook
 }
 
 // GenStreamScript draws a stream script for the given method kind
@@ -228,6 +232,9 @@ func GenStreamScript(t *simkern.Tape, nonce int64, kind string, o GenOpts) *Scri
 	s.Logs = GenLogs(t, 2, "init")
 	s.Header = t.Bool(1, 2)
 	s.Dyn2 = t.Bool(1, 2) // only read by the dynamic method
+	if o.NoHook {
+		s.NoHook = t.Bool(1, 3)
+	}
 	if o.MaxTurns <= 0 {
 		o.MaxTurns = 6
 	}
